@@ -284,6 +284,9 @@ def strategy():
         'detail': opt(text), 'message': opt(text), 'error_type': opt(text), 'code': opt(st.sampled_from([400, 418, 499, 500, 599, 404])),
         'accept': st.sampled_from(ACCEPTS), 'debug': st.sampled_from([False, True, False, True, 'fallback']), 'method': st.sampled_from(['GET', 'GET', 'POST']),
         'preset': st.sampled_from([None, None, None, 'text/html', 'application/json', 'application/xml', 'text/plain', 'image/png']),
+        # the other documented constructor argument: a complete Content-Type, spelled exactly as the framework itself would
+        'preset_ct': st.sampled_from([None, None, None, 'application/json', 'text/html; charset=utf-8', 'application/xml; charset=utf-8',
+                                      'text/plain; charset=utf-8', 'application/json; charset=utf-8', 'text/html']),
         'stack': st.sampled_from([None, None, None, 'gzip', 'cache', 'gzip+cache']),
         'reuse': st.sampled_from([None, None, 'text/html', 'application/json', 'application/xml']),
     })
@@ -321,6 +324,8 @@ def make_app(case, cell):
             kw['code'] = 500
         if c.get('preset'):
             kw['mimetype'] = c['preset']          # documented constructor argument
+        elif c.get('preset_ct'):
+            kw['content_type'] = c['preset_ct']   # likewise
         if cell.get('reuse_obj') is not None:
             e = cell['reuse_obj']                 # the very instance that was rendered for the previous request
         else:
